@@ -101,11 +101,26 @@ fn tie_literal(l: L, radix: u32, k_raw: u128, variant: usize, extra: &[u8], sel:
         }
     };
     let mut lead = String::new();
-    match variant % 8 {
+    // cut positions: anywhere, or at / next to the digit budgets of fast paths (3, 6, 13, 27, 54 digits)
+    let cut_at = |len: usize| -> usize {
+        const BUDGETS: [usize; 16] = [2, 3, 4, 5, 6, 7, 12, 13, 14, 26, 27, 28, 53, 54, 55, 56];
+        if (sel >> 30) & 1 == 1 {
+            BUDGETS[(sel as usize >> 8) % 16].min(len)
+        } else {
+            (sel as usize >> 8) % (len + 1)
+        }
+    };
+    match variant % 10 {
         0 => {}
         1 => {
-            let cut = (sel as usize >> 8) % (frac_s.len() + 1);
+            let cut = cut_at(frac_s.len());
             frac_s.truncate(cut);
+        }
+        8 | 9 => {
+            // a prefix of the tie with its last kept digit moved: just above / below the tie with few digits
+            let cut = cut_at(frac_s.len()).max(1);
+            frac_s.truncate(cut);
+            bump_last(&mut frac_s, variant % 10 == 8);
         }
         2 => bump_last(&mut frac_s, true),
         3 => bump_last(&mut frac_s, false),
@@ -373,7 +388,7 @@ impl Engine for Text {
                                 format!("{}{}.{}{}", if av.is_neg() { "-" } else { "" }, i, f, digits_to_string(&df, radix, sel))
                             }
                             // around a rounding tie
-                            3..=6 => tie_literal(l, radix, pattern(l, ia), (sel & 7) as usize, &df, sel >> 4),
+                            3..=6 => tie_literal(l, radix, pattern(l, ia), (sel % 10) as usize, &df, sel >> 4),
                             // fraction of all top digits ("x.999..."): rounds up into the integer part
                             7 => {
                                 let a = pattern(l, ia);
